@@ -136,6 +136,9 @@ def check_C07(o, tier):
     o.add_audit(core.audit("C07", tier == "thorough"))
     http_check(o, tier, "C07", ["refs", "mix", "limits"], make_view(ops=("REFS", "MPUT", "MDEL"), fields=("code", "body", "ct", "subj", "filt", "link", "cl")),
                RULE % "refs, mix, limits", monitors_prefix="C07.")
+    # across restart (the directory store collects when it is closed) and across explicit collections
+    http_check(o, tier, "C07", ["restart", "gc"], make_view(ops=("REFS", "MPUT", "MDEL"), fields=("code", "body", "ct", "subj", "filt", "link", "cl")),
+               RULE % "refs, mix, limits, restart, gc", monitors_prefix="C07.", n_quick=150, n_thorough=4000)
 
 
 def check_C08(o, tier):
